@@ -99,12 +99,30 @@ fn c02c20_like_rewrite__classifiers_equivalent__bnd__thr() {
     }
 }
 
-// Bounded stand-in (NOT a proof): exhaustive native execution over every pattern of <= 4 characters from
-// {a, b, %, _, \} and every string of <= 3 characters from {a, b, \, newline}; the symbolic version above exceeds CBMC's
-// reach (std's string searchers).
-fn enumerate(alphabet: &[u8], max_len: usize) -> Vec<Vec<u8>> {
-    let mut all: Vec<Vec<u8>> = vec![vec![]];
-    let mut frontier: Vec<Vec<u8>> = vec![vec![]];
+// Bounded stand-in (NOT a proof): exhaustive native execution over every pattern of <= 4 CHARACTERS from
+// {a, e-acute (2 bytes), %, _, backslash} and every string of <= 3 characters from {a, e-acute, backslash, newline};
+// the symbolic version above exceeds CBMC's reach (std's string searchers).
+fn like_chars(s: &[char], p: &[char]) -> bool {
+    if p.is_empty() {
+        return s.is_empty();
+    }
+    match p[0] {
+        '%' => like_chars(s, &p[1..]) || (!s.is_empty() && like_chars(&s[1..], p)),
+        '_' => !s.is_empty() && like_chars(&s[1..], &p[1..]),
+        '\\' => {
+            if p.len() > 1 {
+                !s.is_empty() && s[0] == p[1] && like_chars(&s[1..], &p[2..])
+            } else {
+                s.len() == 1 && s[0] == '\\'
+            }
+        }
+        c => !s.is_empty() && s[0] == c && like_chars(&s[1..], &p[1..]),
+    }
+}
+
+fn enumerate_chars(alphabet: &[char], max_len: usize) -> Vec<Vec<char>> {
+    let mut all: Vec<Vec<char>> = vec![vec![]];
+    let mut frontier: Vec<Vec<char>> = vec![vec![]];
     for _ in 0..max_len {
         let mut next = Vec::new();
         for w in &frontier {
@@ -122,27 +140,29 @@ fn enumerate(alphabet: &[u8], max_len: usize) -> Vec<Vec<u8>> {
 
 #[test]
 fn c02c20_like_rewrite__classifiers_equivalent__nat() {
-    let pats = enumerate(b"ab%_\\", 4);
-    let strs = enumerate(b"ab\\\n", 3);
+    let pats = enumerate_chars(&['a', 'é', '%', '_', '\\'], 4);
+    let strs = enumerate_chars(&['a', 'é', '\\', '\n'], 3);
     let mut checked = 0usize;
     for p in &pats {
-        let pstr = std::str::from_utf8(p).unwrap();
+        let pstr: String = p.iter().collect();
+        // what the rule passes to starts_with / ends_with / contains
+        let trimmed: &str = pstr.trim_matches('%');
         for s in &strs {
-            let expected = like(s, p);
-            let (got, rule) = if can_str_compare(pstr) {
-                (s == p, "=")
-            } else if is_prefix_pattern(pstr) {
-                (starts_with(s, trim_pct(p)), "starts_with")
-            } else if is_suffix_pattern(pstr) {
-                (ends_with(s, trim_pct(p)), "ends_with")
-            } else if is_contains_pattern(pstr) {
-                (contains(s, trim_pct(p)), "contains")
+            let sstr: String = s.iter().collect();
+            let expected = like_chars(s, p);
+            let (got, rule) = if can_str_compare(&pstr) {
+                (sstr == pstr, "=")
+            } else if is_prefix_pattern(&pstr) {
+                (sstr.starts_with(trimmed), "starts_with")
+            } else if is_suffix_pattern(&pstr) {
+                (sstr.ends_with(trimmed), "ends_with")
+            } else if is_contains_pattern(&pstr) {
+                (sstr.contains(trimmed), "contains")
             } else {
                 continue;
             };
             checked += 1;
-            assert!(got == expected, "LIKE rewrite to `{rule}` changes the result: {:?} LIKE {:?} is {expected}, rewritten form gives {got}",
-                std::str::from_utf8(s).unwrap(), pstr);
+            assert!(got == expected, "LIKE rewrite to `{rule}` changes the result: {sstr:?} LIKE {pstr:?} is {expected}, rewritten form gives {got}");
         }
     }
     assert!(checked > 1000);
